@@ -50,6 +50,10 @@ class Leaf(AutoSerialize):
     """a second class so that class identity is observable."""
 
 
+class SubLeaf(Leaf):
+    """subclass of Leaf: skip=[Leaf] must remove it too (isinstance semantics at save time)."""
+
+
 class Other(AutoSerialize):
     """third class (used as 'object of another class' by C08 and as skip type by C14)."""
 
@@ -63,7 +67,7 @@ class WithInit(AutoSerialize):
         self.made_by_init = True
 
 
-CLASSES = {"Node": Node, "Leaf": Leaf, "Other": Other}
+CLASSES = {"Node": Node, "Leaf": Leaf, "SubLeaf": SubLeaf, "Other": Other}
 
 def place(v, placement, rng):
     """returns the root object holding v at the given placement (attribute name 'x')."""
